@@ -194,7 +194,7 @@ func init() {
 		ID: "C04",
 		Expl: "Decides structural necessary conditions of the codec round trip in pkg/packet/bgp: (E4.decode-produces) every concrete type implementing a codec interface is allocated by some function reachable from the parse entry points, so the decoder has a row for every type a serialiser exists for; " +
 			"(E4.attr-tables) the attribute factory switch, PathAttrFlags and the RFC flag classes agree row by row; (E2d) Serialize/Len/String/MarshalJSON/… of every type that can be stored in a route do not write their receiver (re-serialising is a fixpoint only if serialising has no side effect); " +
-			"(E3.emitted-length) framing helpers derive header length and the extended-length flag from the bytes they emit, not from a stored Length; (E6.addpath-direction) decoders ask for the receive direction of ADD-PATH and serialisers for the send direction.",
+			"(E3.emitted-length) framing helpers derive header length and the extended-length flag from the bytes they emit, not from a stored Length; (E6.addpath-direction) decoders ask for the receive direction of ADD-PATH and serialisers for the send direction; (E3.guard-order) writer and reader of a type test the same option constants in the same order around wire-touching statements; (E3.decoded-fields) every field a decodable type's Serialize reads is filled somewhere on the decode side.",
 		Not: "Byte-level correctness of any encoder/decoder, Len()==bytes emitted, equality after a round trip and RFC well-formedness of emitted messages are value-level and not decided.",
 		Run: func(c *Ctx) {
 			c.ruleDecodeProduces("E4.decode-produces", []string{"pkg/packet/bgp"}, 200)
@@ -217,7 +217,7 @@ func init() {
 	})
 	register(&Check{
 		ID: "C19",
-		Expl: "Decides for pkg/packet/{mrt,bmp,rtr,bfd} and pkg/zebra: (E2c) decoders never write their input buffer nor anything that retains a part of it; (E4.decode-produces) every message/TLV type with a serialiser is allocated on the decode side; (E6.split) stream splitters compare len(input) — not cap — with the very bound they slice by; (E3.guard-order) the writer and the reader of one structure test the same flag constants in the same order around their wire-touching statements and under the same protocol versions (finite version domain); (E4.mrt-rib-families) the MRT reader, Rib.Serialize and the dump writer agree on which families have AFI/SAFI-specific RIB subtypes.",
+		Expl: "Decides for pkg/packet/{mrt,bmp,rtr,bfd} and pkg/zebra: (E2c) decoders never write their input buffer nor anything that retains a part of it; (E4.decode-produces) every message/TLV type with a serialiser is allocated on the decode side; (E6.split) stream splitters compare len(input) — not cap — with the very bound they slice by; (E3.guard-order) the writer and the reader of one structure test the same flag constants in the same order around their wire-touching statements and under the same protocol versions (finite version domain); (E4.mrt-rib-families) the MRT reader, Rib.Serialize and the dump writer agree on which families have AFI/SAFI-specific RIB subtypes; (E3.decoded-fields) every field a decodable type's Serialize reads is filled somewhere on the decode side.",
 		Not: "Crash-freedom and termination of the decoders, and round-trip equality, are value-level and not decided. ZAPI field symmetry is excluded (request and response bodies are directional).",
 		Run: func(c *Ctx) {
 			c.ruleInputImmutable("E2c.input", []string{"pkg/packet/mrt", "pkg/packet/bmp", "pkg/packet/rtr", "pkg/packet/bfd", "pkg/zebra"}, 60)
